@@ -22,14 +22,41 @@ type params struct {
 	seed                   uint64
 	growEvery, growBy, lag int
 	real                   bool // real jrpc2.Client + HTTP simnode
+	sibling                bool // shapes log / appr: a second integration with the twin event on the same source
 }
 
 func scenario(p params, r *lib.RNG) *ts.Scenario {
 	sc := &ts.Scenario{Name: p.name, Seed: p.seed, Head: p.head, Real: p.real,
-		Gen:  ts.GenOpts{MaxTxs: 3, MaxLogs: 4, Traces: p.shape == "trace", AlwaysTrace: p.real && p.shape == "trace", Tags: p.shape == "tags", Decoys: true, EmptyProb: 20},
+		Gen: ts.GenOpts{MaxTxs: 3, MaxLogs: 4, Traces: p.shape == "trace", AlwaysTrace: p.real && p.shape == "trace", Tags: p.shape == "tags", Decoys: true, EmptyProb: 20,
+			TopicTwins: p.shape == "logr" || p.shape == "appr" || p.sibling},
 		Srcs: []ts.SrcSpec{{Name: "main", ChainID: 1, Batch: p.batch, Conc: p.conc, URL: "http://main.invalid"}},
-		IGs: []ts.IGSpec{{Name: "ig1", Shape: p.shape, Table: "t1", AddrFlt: p.addrFlt,
+		IGs: []ts.IGSpec{{Name: "ig1", Shape: p.shape, Table: "t1", AddrFlt: p.addrFlt, Hdr: p.shape == "appr" && (p.sibling || p.seed%2 == 0),
 			Sources: []ts.SrcRef{{Name: "main", Start: p.start, Stop: p.stop}}}}}
+	finish := func() {}
+	if p.sibling {
+		// a second integration on the same source (and, in real-client mode, the same
+		// jrpc2.Client) whose event has the topic count and data size of the first one's:
+		// Transfer next to Approval, both with header plans (shared cached segments)
+		twin := map[string]string{"log": "appr", "appr": "log"}[p.shape]
+		sc.IGs = append(sc.IGs, ts.IGSpec{Name: "ig2", Shape: twin, Table: "t2", AddrFlt: p.addrFlt, Hdr: true,
+			Sources: []ts.SrcRef{{Name: "main", Start: p.start, Stop: p.stop}}})
+		finish = func() {
+			// the sibling takes one step next to every step of the first task, before or after it
+			var acts []ts.Act
+			for i, a := range sc.Acts {
+				if a.Do != "step" {
+					acts = append(acts, a)
+					continue
+				}
+				if (i+int(p.seed))%3 == 0 {
+					acts = append(acts, ts.Act{Do: "step", Tid: 2}, a)
+				} else {
+					acts = append(acts, a, ts.Act{Do: "step", Tid: 2})
+				}
+			}
+			sc.Acts = acts
+		}
+	}
 	head := p.head
 	relcalls := []string{"latest#0", "hash#0", "get@0#0", "get@1#0", "get@2#0", "latest#1"}
 	kinds := []string{"error", "drop", "drop-after"}
@@ -67,6 +94,7 @@ func scenario(p params, r *lib.RNG) *ts.Scenario {
 	// the faults stop: enough fault-free steps to reach the head
 	sc.Acts = append(sc.Acts, ts.Act{Do: "clear"}, ts.Act{Do: "lag", K: 0})
 	sc.Acts = append(sc.Acts, ts.Steps(1, (head+1+p.batch-1)/p.batch+3)...)
+	finish()
 	return sc
 }
 
@@ -75,7 +103,8 @@ func run(cfg lib.Cfg) error {
 	out.Rule = "non-trivial = at least two converged steps, at least one row indexed and at least one decoy log in the chain"
 	judge := func(sc *ts.Scenario, kind string) {
 		ts.Judge(out, sc, kind, func(r *ts.Run) []string {
-			return append(r.InvOracle(), r.GrowthOracle(true)...)
+			// (the per-row statement of "nothing else is present" first: it names the log a stray row came from)
+			return append(append(r.ForeignLogOracle(), r.InvOracle()...), r.GrowthOracle(true)...)
 		}, func(r *ts.Run) bool {
 			return r.CountOutcomes()["OConverged"] >= 2 && r.RowsIndexed() >= 1 && r.SawDecoy()
 		})
@@ -147,6 +176,40 @@ func run(cfg lib.Cfg) error {
 		sc.Acts = append(sc.Acts, ts.Act{Do: "step", Tid: 1}, ts.Act{Do: "step", Tid: 2}, ts.Act{Do: "step", Tid: 1}, ts.Act{Do: "step", Tid: 2})
 		judge(sc, "corpus-two-events-one-transaction")
 	}
+	// corpus: two integrations whose events have the SAME topic count and data size (Transfer,
+	// Approval) on one source and one real client, both with header plans: the tasks run in
+	// lock-step, so whoever reads a cached header segment second gets blocks that already
+	// carry the sibling's logs; a step that failed after its load is retried after the sibling
+	// has passed.  Every table must hold the rows of ITS event only.
+	for v := 0; v < 4; v++ {
+		sc := &ts.Scenario{Name: fmt.Sprintf("corpus-same-shaped-events-one-client-%d", v), Seed: uint64(31 + v), Head: 8, Real: true,
+			Gen:  ts.GenOpts{MaxTxs: 2, MaxLogs: 4, Decoys: true, TopicTwins: true},
+			Srcs: []ts.SrcSpec{{Name: "main", ChainID: 1, Batch: 2 + v%2, Conc: 1, URL: "http://main.invalid"}},
+			IGs: []ts.IGSpec{
+				{Name: "ig1", Shape: "log", Table: "t1", AddrFlt: v == 3, Sources: []ts.SrcRef{{Name: "main", Start: 1}}},
+				{Name: "ig2", Shape: "appr", Table: "t2", Hdr: true, AddrFlt: v == 3, Sources: []ts.SrcRef{{Name: "main", Start: 1}}},
+			}}
+		a, b := 1, 2
+		if v == 1 {
+			a, b = 2, 1
+		}
+		if v == 2 {
+			// a's COPY fails after its load; b reads the segment; a's retry
+			sc.Acts = append(sc.Acts, ts.Act{Do: "fault", Tid: a, At: 4, Kind: "error"}, ts.Act{Do: "step", Tid: a}, ts.Act{Do: "step", Tid: b})
+		}
+		for k := 0; k < 6; k++ {
+			sc.Acts = append(sc.Acts, ts.Act{Do: "step", Tid: a}, ts.Act{Do: "step", Tid: b})
+		}
+		judge(sc, "corpus-same-shaped-events-one-client")
+	}
+	// corpus: a log integration that declares a receipt field (tx_status): its plan is
+	// eth_getBlockReceipts, which hands dig EVERY log of every transaction - Approval logs
+	// (same topic count and data size as Transfer), three-topic logs with no data or with
+	// four bytes of data, ERC-721 style transfers.  Scripted source, real client, address filter.
+	for v := 0; v < 4; v++ {
+		p := params{name: fmt.Sprintf("corpus-receipts-plan-log-%d", v), shape: "logr", addrFlt: v == 1, batch: 2 + v, conc: 1 + v%2, start: 1, head: 9, seed: uint64(41 + v), real: v >= 2}
+		judge(scenario(p, r.Fork()), "corpus-receipts-plan-log")
+	}
 	// corpus: an event with a selected string[] argument whose elements are sometimes empty
 	// (the decode buffer of the integration is reused from log to log: an empty element after
 	// a non-empty one in the same row slot must come out empty)
@@ -154,7 +217,7 @@ func run(cfg lib.Cfg) error {
 		p := params{name: fmt.Sprintf("corpus-string-array-%d", v), shape: "tags", batch: 2 + 2*v, conc: 1 + v%2, start: 1, head: 10, seed: uint64(17 + v), real: v == 2}
 		judge(scenario(p, r.Fork()), "corpus-string-array")
 	}
-	shapes := []string{"log", "lognh", "tx", "trace", "tags"}
+	shapes := []string{"log", "lognh", "tx", "trace", "tags", "logr", "appr"}
 	// every batch x conc pair on one fixed chain (thorough: all 96; quick: a seeded third)
 	for b := 1; b <= 12; b++ {
 		for c := 1; c <= 8; c++ {
@@ -204,7 +267,7 @@ func run(cfg lib.Cfg) error {
 	}
 	for i := 0; i < nr; i++ {
 		head := r.Range(2, 14)
-		p := params{name: fmt.Sprintf("real-%d", i), shape: lib.Pick(r, []string{"log", "lognh", "tx", "trace"}), addrFlt: r.Intn(3) == 0,
+		p := params{name: fmt.Sprintf("real-%d", i), shape: lib.Pick(r, []string{"log", "lognh", "tx", "trace", "logr", "appr", "log"}), addrFlt: r.Intn(3) == 0,
 			batch: r.Range(1, 8), conc: r.Range(1, 4), head: head, seed: r.U64() % 1_000_000, faults: r.Intn(3),
 			growEvery: r.Intn(3), growBy: r.Range(1, 4), real: true}
 		p.start = uint64(lib.Pick(r, []int{0, 1, head/2 + 1, head}))
@@ -213,7 +276,12 @@ func run(cfg lib.Cfg) error {
 			// partitions of a load are not fetched concurrently
 			p.conc = 1
 		}
-		judge(scenario(p, r.Fork()), "real-client-growth")
+		kind := "real-client-growth"
+		if (p.shape == "log" || p.shape == "appr") && r.Bool() {
+			p.sibling = true
+			kind = "real-client-growth-same-shaped-events"
+		}
+		judge(scenario(p, r.Fork()), kind)
 	}
 	out.Notes["tiers"] = "quick: corpus + ~24 batch x conc pairs + 40 random histories; thorough: all 96 pairs + 1500 histories"
 	return out.Flush()
